@@ -746,9 +746,9 @@ TABLE["C17"] = [
     B("docstring-added-to-constructors", {"Q1"},
       (PW, "                        py_args_names=self._py_args_names(ctor.args),", "                        py_args_names=self._py_args_names(ctor.args) + (', \"ctor\"' if self.xml_source != \"\" else ''),")),
     B("quotes-not-escaped", {"Q1"},
-      (PW, "[1:-1].replace('\"', r'\\\"') + '\"' ", "[1:-1] + '\"' ")),
+      (PW, "        return '\"' + body.replace('\"', r'\\\"') + '\"'\n", "        return '\"' + body + '\"'\n")),
     B("empty-literal-without-xml", {"Q1"},
-      (PW, "                       if self.xml_source != \"\" else \"\",", "                       if self.xml_source != \"\" else ', \"\"',")),
+      (PW, "                   if self.xml_source != \"\" else \"\",", "                   if self.xml_source != \"\" else ', \"\"',")),
     B("index-queried-by-method-name", {"Q5"},
       (XP, "        class_index = index_root.find(f\"./*[name='{cpp_class}']\")", "        class_index = index_root.find(f\"./*[name='{cpp_method}']\")")),
     B("arity-filter-weakened", {"Q5"},
@@ -1033,4 +1033,23 @@ TABLE["C08"] += [
     N("typedef-table-keyed-by-the-typedef-object",
       (TI + "namespace.py", "            original_element = typedef_targets[id(typedef_inst)]\n", "            original_element = typedef_targets[typedef_inst]\n"),
       (TI + "namespace.py", "            targets[id(element)] = top_level.find_class_or_function(", "            targets[element] = top_level.find_class_or_function(")),
+]
+_RE_SUB = "        body = re.sub(r'\\\\(x[0-9a-f]{2}|.)', bounded, repr(text)[1:-1])\n"
+TABLE["C17"] += [
+    B("docstring-literal-is-the-bare-repr", {"Q1"},            # the defect repaired by 1d94140
+      (PW, _RE_SUB, "        body = repr(text)[1:-1]\n")),
+    B("hex-escapes-matched-without-tokenising-the-other-escapes", {"Q1"},
+      (PW, _RE_SUB, "        body = re.sub(r'\\\\(x[0-9a-f]{2})', bounded, repr(text)[1:-1])\n")),
+    B("octal-escape-not-padded", {"Q1"},
+      (PW, "            return '\\\\%03o' % code if code < 0x80 else '\\\\u%04x' % code\n", "            return '\\\\%o' % code if code < 0x80 else '\\\\u%04x' % code\n")),
+    B("octal-escape-for-every-code", {"Q1"},
+      (PW, "            return '\\\\%03o' % code if code < 0x80 else '\\\\u%04x' % code\n", "            return '\\\\%03o' % code\n")),
+    B("print-redirect-rewrites-every-occurrence", {"Q6"},    # the defect repaired by eb1f87f
+      (PW, "                          'py::scoped_ostream_redirect output; self->print',\n                          1)\n", "                          'py::scoped_ostream_redirect output; self->print')\n")),
+    N("octal-escape-with-format-spec",
+      (PW, "            return '\\\\%03o' % code if code < 0x80 else '\\\\u%04x' % code\n", "            return '\\\\{:03o}'.format(code) if code < 128 else '\\\\u{:04x}'.format(code)\n")),
+]
+TABLE["C17"] += [
+    B("apostrophes-unescaped-after-tokenising", {"Q1"},
+      (PW, "        return '\"' + body.replace('\"', r'\\\"') + '\"'\n", "        body = body.replace(\"\\\\'\", \"'\").replace('\"', '\\\\\"')\n        return '\"' + body + '\"'\n")),
 ]
